@@ -11,6 +11,8 @@ package agent
 // agent whose distance to an origin exceeds max_hops stores none of that origin's routes and
 // never sends a ROUTE_ADVERTISE carrying that origin's routes. (An agent at exactly max_hops may do
 // either: the statement only forbids "more than".)
+//
+// failover_test.go adds the family "failover then late join" (link failures, exact hop accounting).
 
 import (
 	"fmt"
@@ -61,8 +63,21 @@ func c15Check(r *vmc.Result, sc nsFloodScenario) func(nt *nsNet, hist []string) 
 
 func TestVerif_C15(t *testing.T) {
 	r := vmc.New("C15", "model_checking")
-	r.Rule = "BFS over all interleavings of announcements and deliveries in chains/rings of real agents built by agent.New with routing.max_hops in {1,2,3}; non-trivial = distinct (table, distance, limit) combinations of routes stored within the limit"
-	r.Assume("links FIFO and reliable; map iteration order fixed by the maprange rewriter")
+	r.Rule = "BFS over all interleavings of announcements and deliveries in chains/rings of real agents built by agent.New with routing.max_hops in {1,2,3}; non-trivial = distinct (table, distance, limit) combinations of routes stored within the limit; family failover-then-late-join: BFS over announcements, deliveries, one link failure and late link-ups in a diamond with a tail (thorough: more graphs), the harness counting the links each announcement copy really crossed; non-trivial there = distinct (table, links crossed, limit) stored within the limit and distinct (links crossed, live distance) held over a failed link"
+	r.Assume("links FIFO and reliable while up (frames in flight on a failing link are lost); map iteration order fixed by the maprange rewriter")
+	var fam struct {
+		Family string `json:"family"`
+	}
+	if r.ReplayInto(&fam) && fam.Family == "failover" {
+		var fo c15foScenario
+		r.ReplayInto(&fo)
+		c15foReplay(t, r, fo)
+		r.Add("states", 1); r.Add("transitions", 1)
+		if err := r.Finish(); err != nil {
+			t.Fatal(err)
+		}
+		return
+	}
 	var rp nsFloodScenario
 	if r.ReplayInto(&rp) {
 		nt, err := nsFloodBuild(rp, rp.History)
@@ -115,6 +130,9 @@ func TestVerif_C15(t *testing.T) {
 			r.NotExhaustive("BFS did not reach a fixpoint for " + sc.String())
 		}
 	}
+	// family "failover then late join" (failover_test.go): a link fails, the origin's next announcement
+	// arrives over a longer detour, an agent joins behind and is served by the full-table replay
+	c15foRun(t, r)
 	if err := r.Finish(); err != nil {
 		t.Fatal(err)
 	}
